@@ -1,16 +1,50 @@
-"""C19  Every tag function creates its own element with the documented default."""
+"""C19  Every tag function creates its own element with the documented default.
+
+ENTRY POINTS AND ARGUMENTS THAT REACH THE BEHAVIOUR THIS PROPERTY DESCRIBES
+---------------------------------------------------------------------------
+Creating the element (each is exercised below, with default and non-default arguments):
+  * htmltools.tags.<113 functions>, htmltools.svg.<66 functions>, the 17 top-level shortcuts
+    htmltools.a ... htmltools.strong, `from htmltools import *` / `from htmltools.tags import *`
+    (the names of __all__), and the reference they are compared with: Tag(name, *args, _add_ws=, **kw).
+  * positional arguments: children (str, str subclass, HTML, HTML subclass, int, float, None, Tag,
+    Tagifiable objects, self-rendering objects (_repr_html_), objects that are both, MetadataNode,
+    HTMLDependency, JSX components; list / tuple / TagList / another tag's .children, nested to any
+    depth) and attribute dicts (dict, OrderedDict, a user dict subclass, another tag's .attrs
+    (TagAttrDict), the dict returned by consolidate_attrs), in any interleaving and number.
+  * keyword arguments: _add_ws (absent / True / False / non-bool), keyword attributes (trailing
+    underscore, inner underscores, names that collide with dict keys after normalisation).
+Observing the element (wrapper result and Tag(...) result must be indistinguishable; where the property
+text gives the value, it is judged by the specification oracle):
+  * .name .add_ws .attrs .children; == ; str / repr / _repr_html_ ; get_html_string(indent=, eol=);
+    render(); tagify(); get_dependencies(dedup=False); save_html(libdir=None, include_version=False);
+    HTMLDocument(x, lang=, class_=).render(lib_prefix=None, include_version=False);
+    TagList(x).get_html_string(indent=, eol=, add_ws=False); copy.copy / copy.deepcopy;
+    htmltools.html_dependency_render_mode = "json"; the with-block (sys.displayhook) route on the
+    element a wrapper returned; consolidate_attrs(*args, **kw) fed back into the wrapper;
+    add_class / add_style(prepend=True) on the result, then its .attrs into another wrapper.
+
+The oracle for "passes children, attribute dicts and keyword attributes through exactly as the Tag
+constructor does" is a transcription of what the constructor is documented to do (statements C14,
+C15, C03 of properties.jsonl), NOT a second run of the implementation: comparing f(*a) with
+Tag(name, *a) alone cannot see a constructor that is wrong for both.
+"""
 from __future__ import annotations
 
 import ast
+import collections
+import copy
 import os
+import shutil
+import sys
+import tempfile
 import types
 
-from ..common import Ctx, REPO, S, unS, run_model
+from ..common import Ctx, REPO, S, unS, run_model, ImplTimeout, time_limit
 from .. import trees
 from ..trees import safe_call
 
 import htmltools
-from htmltools import HTML, Tag, TagList, svg, tags
+from htmltools import HTML, HTMLDependency, HTMLDocument, MetadataNode, Tag, TagList, consolidate_attrs, svg, tags
 
 # The project's classification, as the statement's "elements the project classifies as
 # inline": read from scripts/generate_tags.py (ast, not import: the script downloads).
@@ -58,11 +92,858 @@ def rand_args(rng):
     return args, kw
 
 
+# =================================================================================================
+# The constructor's documented behaviour (specification oracle).  From the property texts:
+#   C14: "the children are exactly the depth-first, left-to-right flattening of the supplied
+#         arguments: nested lists, tuples and TagLists spliced, None dropped, numbers converted to
+#         their str() text, strings kept whole ... An argument of unsupported type raises TypeError"
+#   C15: "names with one trailing underscore removed and remaining underscores turned into hyphens;
+#         None/False dropped, True as empty string, numbers as text; all values given for the same
+#         normalised name within one call joined by single spaces in argument order (positional
+#         dicts left to right, then keywords), and attributes ordered by first appearance"
+#   C03: a plain value "merged by the library with other values given for the same attribute,
+#         including values marked HTML()" is written with & < > " ' CR LF as character references:
+#         the merged value of a group holding an HTML() value is HTML() (written verbatim), so its
+#         plain members are stored escaped with exactly that table.
+# =================================================================================================
+ATTR_MAP = {"&": "&amp;", "<": "&lt;", ">": "&gt;", '"': "&quot;", "'": "&apos;", "\r": "&#13;", "\n": "&#10;"}
+
+
+def esc_attr(s: str) -> str:
+    return "".join(ATTR_MAP.get(c, c) for c in s)
+
+
+def spec_name(k: str) -> str:
+    if k.endswith("_"):
+        k = k[:-1]
+    return k.replace("_", "-")
+
+
+def long_text(n: int, unit: str, tail: str) -> str:
+    """n characters: `unit` repeated, the last len(tail) characters being `tail` (the interesting
+    content sits at the very end)"""
+    unit = unit or "x"
+    return (unit * (n // len(unit) + 1))[:max(n - len(tail), 0)] + tail
+
+
+def scalar_text(v) -> str:
+    k = v[0]
+    if k in ("s", "S", "h", "hs"):
+        return v[1]
+    if k in ("ls", "lh"):
+        return long_text(v[1], v[2], v[3])
+    if k == "i":
+        return str(int(v[1]))
+    if k == "fl":
+        return str(float(v[1]))
+    raise ValueError(v)
+
+
+def mk_scalar(v):
+    k = v[0]
+    if k == "s":
+        return v[1]
+    if k == "S":
+        return trees.StrSub(v[1])
+    if k == "h":
+        return HTML(v[1])
+    if k == "hs":
+        return trees.HtmlSub(v[1])
+    if k == "ls":
+        return long_text(v[1], v[2], v[3])
+    if k == "lh":
+        return HTML(long_text(v[1], v[2], v[3]))
+    if k == "i":
+        return int(v[1])
+    if k == "fl":
+        return float(v[1])
+    if k == "t":
+        return True
+    if k == "f":
+        return False
+    if k == "z":
+        return None
+    raise ValueError(v)
+
+
+def spec_value(v):
+    """None/False dropped, True as empty string, numbers as text -> None | (is_html, text)"""
+    k = v[0]
+    if k in ("z", "f"):
+        return None
+    if k == "t":
+        return (0, "")
+    return (1 if k in ("h", "hs", "lh") else 0, scalar_text(v))
+
+
+def dict_pairs(pairs):
+    """what a Python dict built from these (key, value) pairs holds: one entry per key, at the key's
+    first position, with its last value (the language, not the library)"""
+    d: dict = {}
+    for k, v in pairs:
+        d[k] = v
+    return list(d.items())
+
+
+def spec_merge(pairlists):
+    """[[(raw name, value description)]] in argument order -> [[name, is_html, text]]"""
+    groups: dict = {}
+    for pl in pairlists:
+        for k, v in pl:
+            t = spec_value(v)
+            if t is not None:
+                groups.setdefault(spec_name(k), []).append(t)
+    out = []
+    for n, vals in groups.items():
+        if any(m for m, _ in vals):
+            out.append([n, 1, " ".join(t if m else esc_attr(t) for m, t in vals)])
+        else:
+            out.append([n, 0, " ".join(t for _, t in vals)])
+    return out
+
+
+# =================================================================================================
+# A small JSON-able language of calls (what the replay file shows), and its builder, which returns
+# the live arguments TOGETHER WITH what the property says the element must hold.
+#
+#  scalar (child or attribute value):
+#     ["s",t] str   ["S",t] str subclass   ["h",t] HTML   ["hs",t] HTML subclass   ["i",n]   ["fl",repr]
+#     ["z"] None   ["t"] True   ["f"] False   ["ls",n,unit,tail] / ["lh",...] long str / HTML (long_text)
+#  child:
+#     scalar | ["g",name,ws,[args],[[k,v]]] Tag(...) | ["chain",depth,leaf] tags nested `depth` deep
+#     | ["r",t] self-rendering | ["c",n] tagifiable | ["cr",t] both | ["m"] MetadataNode
+#     | ["dep",name,version] | ["jsx",name] | ["bad",kind] unsupported type
+#     | ["L",[..]] list | ["T",[..]] tuple | ["TL",[..]] TagList | ["KC",[..]] another tag's .children
+#     | ["rep",n,template,"L"|"T"|"TL"] container of n items ("{i}" in texts is the index)
+#     | ["nest",kind,depth,item]  kind: list | tuple | mixed | sib | tl
+#     | ["same",key,child]  the very same object wherever the key is used again
+#  attribute dict (top level only; inside a container a dict is an unsupported child):
+#     ["d",[[k,v]]] dict | ["od",..] OrderedDict | ["dsub",..] user subclass
+#     | ["D",[[k,v]],[[k,v]]] Tag('span', {..}, **{..}).attrs | ["drep",n,keytemplate,vtemplate,kind]
+#  top level only:
+#     ["*rep",n,template] n positional arguments | ["*ca",[args],[[k,v]]] attrs, *children of
+#     consolidate_attrs(*args, **kw)
+# =================================================================================================
+class DictSub(dict):
+    """a user's dict subclass"""
+    note = "subclass"
+
+
+def subst(d, i: int):
+    if isinstance(d, str):
+        return d.replace("{i}", str(i)) if "{i}" in d else d
+    if isinstance(d, list):
+        return [subst(x, i) for x in d]
+    return d
+
+
+SCALARS = ("s", "S", "h", "hs", "i", "fl", "z", "t", "f", "ls", "lh")
+DICTS = ("d", "od", "dsub", "D", "drep")
+CHAIN_FNS = [("tags", "div"), ("tags", "span"), ("svg", "g"), ("tags", "li"), ("tags", "a")]
+
+
+class Builder:
+    def __init__(self, mods):
+        self.mods = mods
+        self.memo: dict = {}
+        self.invalid = False      # an argument of unsupported type was built: TypeError expected
+        self.depth = 0            # deepest container nesting built
+        self.custom = False       # objects without value equality / with their own rendering
+        self.chains: list = []    # (outermost tag, depth, leaf object) of every chain built
+
+    # ---- children -----------------------------------------------------------------------------
+    def child(self, d, level: int = 0):
+        """-> (object, [expected stored nodes])
+        expected node: ("str", text) | ("is", object) | ("html", HTML object: that object or an equal HTML value)"""
+        k = d[0]
+        self.depth = max(self.depth, level)
+        if k in ("s", "S", "ls"):
+            return mk_scalar(d), [("str", scalar_text(d))]
+        if k in ("i", "fl"):
+            o = mk_scalar(d)
+            return o, [("str", str(o))]
+        if k in ("h", "hs", "lh"):
+            o = mk_scalar(d)
+            return o, [("html", o)]
+        if k == "z":
+            return None, []
+        if k == "g":
+            _, name, ws, args, kw = d
+            built = [self.child(a, 0)[0] if a[0] not in DICTS else self.dictarg(a)[0] for a in args]
+            o = Tag(name, *built, _add_ws=ws, **{kk: mk_scalar(v) for kk, v in kw})
+            return o, [("is", o)]
+        if k == "chain":
+            _, depth, leaf = d
+            o = bottom = self.child(leaf, 0)[0]
+            for j in range(depth):
+                mn, fn = CHAIN_FNS[j % len(CHAIN_FNS)]
+                o = self.mods[mn][fn](o)
+            self.chains.append((o, depth, bottom))
+            return o, [("is", o)]
+        if k == "r":
+            self.custom = True
+            o = trees.ReprObj(d[1])
+            return o, [("is", o)]
+        if k == "c":
+            self.custom = True
+            o = trees.CustomObj([Tag("i", "e%d" % j) for j in range(d[1])], d[1] != 1)
+            return o, [("is", o)]
+        if k == "cr":
+            self.custom = True
+            o = trees.CustomReprObj([Tag("u", "both")], False, d[1])
+            return o, [("is", o)]
+        if k == "m":
+            self.custom = True
+            o = MetadataNode()
+            return o, [("is", o)]
+        if k == "dep":
+            self.custom = True
+            o = HTMLDependency(d[1], d[2], head="<meta name='%s'>" % d[1])
+            return o, [("is", o)]
+        if k == "jsx":
+            self.custom = True
+            from htmltools._jsx import jsx_tag_create
+            o = jsx_tag_create(d[1])("kid", prop=1)
+            return o, [("is", o)]
+        if k == "bad":
+            self.invalid = True
+            o = {"object": object(), "bytes": b"x", "set": {1}, "gen": (x for x in "ab"), "complex": 1j,
+                 "dict-in-container": {"id": "x"}, "type": int}[d[1]]
+            return o, []
+        if k in DICTS:
+            # only reachable inside a container: there a dict is not an attribute dict
+            self.invalid = True
+            return self.dictarg(d)[0], []
+        if k in ("L", "T", "TL", "KC"):
+            objs, kids = [], []
+            for x in d[1]:
+                o, ks = self.child(x, level + 1)
+                objs.append(o)
+                kids += ks
+            return self._container(k, objs), kids
+        if k == "rep":
+            _, n, template, kind = d
+            objs, kids = [], []
+            for i in range(n):
+                o, ks = self.child(subst(template, i), level + 1)
+                objs.append(o)
+                kids += ks
+            return self._container(kind, objs), kids
+        if k == "nest":
+            _, kind, depth, item = d
+            o, kids = self.child(item, level + depth)
+            left, right = [], []
+            for i in range(depth):
+                if kind == "list":
+                    o = [o]
+                elif kind == "tuple":
+                    o = (o,)
+                elif kind == "mixed":
+                    o = [o] if i % 2 else (None, o)
+                elif kind == "sib":
+                    o = ["L%d" % i, o, "R%d" % i]
+                    left.append(("str", "L%d" % i))
+                    right.append(("str", "R%d" % i))
+                elif kind == "tl":
+                    o = TagList(o) if i == 0 else ([o] if i % 2 else (o,))
+                else:
+                    raise ValueError(d)
+            return o, left[::-1] + kids + right
+        if k == "same":
+            if d[1] not in self.memo:
+                self.memo[d[1]] = self.child(d[2], level)
+            return self.memo[d[1]]
+        raise ValueError(d)
+
+    @staticmethod
+    def _container(kind, objs):
+        if kind == "L":
+            return list(objs)
+        if kind == "T":
+            return tuple(objs)
+        if kind == "TL":
+            return TagList(*objs)
+        if kind == "KC":
+            return Tag("section", *objs).children
+        raise ValueError(kind)
+
+    # ---- attribute dicts ------------------------------------------------------------------------
+    def dictarg(self, d):
+        """-> (object, [(raw name, value description)] as the constructor must read it)"""
+        k = d[0]
+        if k == "same":
+            if d[1] not in self.memo:
+                self.memo[d[1]] = self.dictarg(d[2])
+            return self.memo[d[1]]
+        if k == "drep":
+            _, n, kt, vt, kind = d
+            return self.dictarg([kind, [[subst(kt, i), subst(vt, i)] for i in range(n)], []])
+        pairs = dict_pairs(d[1])
+        live = {kk: mk_scalar(v) for kk, v in pairs}
+        if k == "d":
+            return live, pairs
+        if k == "od":
+            return collections.OrderedDict(live), pairs
+        if k == "dsub":
+            return DictSub(live), pairs
+        if k == "D":
+            kwp = dict_pairs(d[2])
+            donor = Tag("span", "donor", live, **{kk: mk_scalar(v) for kk, v in kwp})
+            # what the donor holds is itself given by the specification
+            return donor.attrs, [(n, ["h" if m else "s", t]) for n, m, t in spec_merge([pairs, kwp])]
+        raise ValueError(d)
+
+    # ---- a whole call ---------------------------------------------------------------------------
+    def call(self, case):
+        """-> (args, kw, expected children, expected attributes [[name, is_html, text]])"""
+        args, kids, pls = [], [], []
+        for a in case["args"]:
+            self._toplevel(a, args, kids, pls)
+        kwp = [(kk, list(v)) for kk, v in case.get("kw", [])]
+        if case.get("kwrep"):
+            n, kt, vt = case["kwrep"]
+            kwp += [(subst(kt, i), subst(vt, i)) for i in range(n)]
+        kwp = dict_pairs(kwp)
+        kw = {kk: mk_scalar(v) for kk, v in kwp}
+        return args, kw, kids, spec_merge(pls + [kwp])
+
+    def _toplevel(self, a, args, kids, pls):
+        k = a[0]
+        if k == "*rep":
+            for i in range(a[1]):
+                self._toplevel(subst(a[2], i), args, kids, pls)
+        elif k == "*ca":
+            iargs, ikids, ipls = [], [], []
+            for x in a[1]:
+                self._toplevel(x, iargs, ikids, ipls)
+            ikw = dict_pairs(a[2])
+            r = call(lambda: consolidate_attrs(*iargs, **{kk: mk_scalar(v) for kk, v in ikw}))
+            if r[0] != "ok":
+                # consolidate_attrs is the constructor: a failure here is judged where it is used
+                self.invalid = True
+                return
+            attrs, children = r[1]
+            args.append(attrs)
+            args.extend(children)
+            kids += ikids
+            # "returns exactly those attributes": as values of a plain dict
+            pls.append([(n, ["h" if m else "s", t]) for n, m, t in spec_merge(ipls + [ikw])])
+        elif k in DICTS or (k == "same" and a[2][0] in DICTS):
+            o, pairs = self.dictarg(a)
+            args.append(o)
+            pls.append(pairs)
+        else:
+            o, ks = self.child(a, 0)
+            args.append(o)
+            kids += ks
+
+
+# ---- the call as Python text (for the replay file) ------------------------------------------------
+def src(d) -> str:
+    k = d[0]
+    if k in ("s",):
+        return repr(d[1])
+    if k == "S":
+        return "StrSub(%r)" % d[1]
+    if k == "h":
+        return "HTML(%r)" % d[1]
+    if k == "hs":
+        return "HtmlSub(%r)" % d[1]
+    if k == "ls":
+        return "long_text(%d, %r, %r)" % (d[1], d[2], d[3])
+    if k == "lh":
+        return "HTML(long_text(%d, %r, %r))" % (d[1], d[2], d[3])
+    if k == "i":
+        return str(d[1])
+    if k == "fl":
+        return "float(%r)" % d[1]
+    if k in ("z", "t", "f"):
+        return {"z": "None", "t": "True", "f": "False"}[k]
+    if k == "g":
+        parts = [src(a) for a in d[3]] + ["_add_ws=%r" % d[2]] + ["**{%r: %s}" % (kk, src(v)) for kk, v in d[4]]
+        return "Tag(%r, %s)" % (d[1], ", ".join(parts))
+    if k == "chain":
+        return "chain(%s, depth=%d, via=div/span/svg.g/li/a)" % (src(d[2]), d[1])
+    if k == "r":
+        return "ReprObj(%r)" % d[1]
+    if k == "c":
+        return "Tagifiable(expanding to %d tags)" % d[1]
+    if k == "cr":
+        return "TagifiableAndReprHtml(%r)" % d[1]
+    if k == "m":
+        return "MetadataNode()"
+    if k == "dep":
+        return "HTMLDependency(%r, %r, head=...)" % (d[1], d[2])
+    if k == "jsx":
+        return "jsx_tag_create(%r)('kid', prop=1)" % d[1]
+    if k == "bad":
+        return "<unsupported: %s>" % d[1]
+    if k == "L":
+        return "[" + ", ".join(src(x) for x in d[1]) + "]"
+    if k == "T":
+        return "(" + "".join(src(x) + ", " for x in d[1]) + ")"
+    if k == "TL":
+        return "TagList(" + ", ".join(src(x) for x in d[1]) + ")"
+    if k == "KC":
+        return "Tag('section', " + ", ".join(src(x) for x in d[1]) + ").children"
+    if k == "rep":
+        return "%s(%s for i in range(%d))" % ({"L": "list", "T": "tuple", "TL": "TagList", "KC": "children_of"}[d[3]], src(d[2]), d[1])
+    if k == "nest":
+        return "nest(%s, depth=%d, kind=%r)" % (src(d[3]), d[2], d[1])
+    if k == "same":
+        return "same_object[%r](%s)" % (d[1], src(d[2]))
+    if k in ("d", "od", "dsub"):
+        body = "{" + ", ".join("%r: %s" % (kk, src(v)) for kk, v in d[1]) + "}"
+        return {"d": "%s", "od": "OrderedDict(%s)", "dsub": "DictSub(%s)"}[k] % body
+    if k == "D":
+        return "Tag('span', 'donor', %s, **%s).attrs" % (src(["d", d[1]]), src(["d", d[2]]))
+    if k == "drep":
+        return "%s({%r: %s for i in range(%d)})" % ({"d": "dict", "od": "OrderedDict", "dsub": "DictSub", "D": "attrs_of_a_tag_with"}[d[4]],
+                                                     d[2], src(d[3]), d[1])
+    if k == "*rep":
+        return "*[%s for i in range(%d)]" % (src(d[2]), d[1])
+    if k == "*ca":
+        return "*attrs_and_children(consolidate_attrs(%s))" % ", ".join([src(x) for x in d[1]] + ["**{%r: %s}" % (kk, src(v)) for kk, v in d[2]])
+    return repr(d)
+
+
+def case_src(case) -> str:
+    parts = [src(a) for a in case["args"]]
+    if case.get("ws") is not None:
+        parts.append("_add_ws=%r" % case["ws"])
+    parts += ["**{%r: %s}" % (kk, src(v)) for kk, v in case.get("kw", [])]
+    if case.get("kwrep"):
+        n, kt, vt = case["kwrep"]
+        parts.append("**{%r: %s for i in range(%d)}" % (kt, src(vt), n))
+    s = "%s.%s(%s)" % (case["fn"][0], case["fn"][1], ", ".join(parts))
+    return s if len(s) < 1500 else s[:1500] + " ..."
+
+
+# ---- running the implementation --------------------------------------------------------------------
+def call(f):
+    """like trees.safe_call, but a RecursionError stays distinguishable (code 7)"""
+    try:
+        with time_limit():
+            return ("ok", f())
+    except ImplTimeout:
+        return ("err", "exc:did-not-terminate")
+    except RecursionError:
+        return ("err", 7)
+    except RuntimeError:
+        return ("err", 6)
+    except TypeError:
+        return ("err", 3)
+    except KeyError:
+        return ("err", 4)
+    except ValueError:
+        return ("err", 5)
+    except Exception as e:
+        return ("err", "exc:" + type(e).__name__)
+
+
+def snap(o, depth: int = 0):
+    """picture of a caller-side object: a read-only call must leave it as it was.  Containers by
+    content (element identity for objects, value for text), tags by name / flag / attrs / children."""
+    if o is None or isinstance(o, (bool, int, float)):
+        return (type(o).__name__, repr(o))
+    if isinstance(o, str):
+        return (type(o).__name__, len(o), o[:40], o[-40:])
+    if isinstance(o, HTML):
+        s = str(o)
+        return (type(o).__name__, len(s), s[:40], s[-40:])
+    if depth > 400:
+        return ("...",)
+    if isinstance(o, (list, tuple, TagList)):
+        return (type(o).__name__, [snap(x, depth + 1) for x in o])
+    if isinstance(o, dict):
+        return (type(o).__name__, [(k, snap(v, depth + 1)) for k, v in o.items()])
+    if isinstance(o, Tag):
+        return ("Tag", id(o), o.name, o.add_ws, snap(o.attrs, depth + 1), snap(o.children, depth + 1) if depth < 80 else len(o.children))
+    return (type(o).__name__, id(o))
+
+
+def attrs_view(t):
+    return [[k, 1 if isinstance(v, HTML) else 0, str(v) if isinstance(v, (str, HTML)) else "<%s>" % type(v).__name__]
+            for k, v in t.attrs.items()]
+
+
+def short(x, n=160):
+    s = x if isinstance(x, str) else repr(x)
+    return s if len(s) <= n else s[:n // 2] + " ...[%d chars]... " % len(s) + s[-n // 2:]
+
+
+def node_view(c):
+    if isinstance(c, (str, HTML)):
+        return "%s:%s" % (type(c).__name__, short(str(c), 60))
+    if isinstance(c, Tag):
+        return "<%s> tag with %d children" % (c.name, len(c.children))
+    return type(c).__name__
+
+
+def children_problem(kids, exp):
+    """None, or where the stored children differ from the expected ones"""
+    n = min(len(kids), len(exp))
+    for i in range(n):
+        e = exp[i]
+        c = kids[i]
+        if e[0] == "is":
+            ok = c is e[1]
+        elif e[0] == "html":
+            ok = c is e[1] or (isinstance(c, HTML) and str(c) == str(e[1]))
+        else:
+            ok = isinstance(c, str) and not isinstance(c, HTML) and str.__eq__(c, e[1])
+        if not ok:
+            return {"first_difference_at": i, "stored": node_view(c),
+                    "expected": node_view(e[1]) + (" (that very object)" if e[0] == "is" else ""),
+                    "stored_count": len(kids), "expected_count": len(exp)}
+    if len(kids) != len(exp):
+        extra = kids[n:n + 3] if len(kids) > n else [e[1] for e in exp[n:n + 3]]
+        return {"stored_count": len(kids), "expected_count": len(exp),
+                ("unexpected" if len(kids) > n else "missing"): [node_view(x) for x in extra]}
+    return None
+
+
+def attrs_problem(got, exp):
+    if got == exp:
+        return None
+    for i in range(max(len(got), len(exp))):
+        g = got[i] if i < len(got) else None
+        e = exp[i] if i < len(exp) else None
+        if g != e:
+            return {"first_difference_at": i, "stored_count": len(got), "expected_count": len(exp),
+                    "stored [name, is_html, text]": None if g is None else [g[0], g[1], short(g[2])],
+                    "expected [name, is_html, text]": None if e is None else [e[0], e[1], short(e[2])]}
+    return {"stored": short(got), "expected": short(exp)}
+
+
+class Judge:
+    """judges one element against what the property says it must be"""
+
+    def __init__(self, ctx: Ctx):
+        self.ctx = ctx
+
+    def element(self, how: str, t, name, ws, exp_kids, exp_attrs, rec) -> bool:
+        ctx = self.ctx
+        if not isinstance(t, Tag):
+            ctx.violation(f"{how}: the result is not a Tag", rec, {"impl_output": short(t)})
+            return False
+        ok = True
+        if t.name != name or t.add_ws is not ws:
+            ctx.violation(f"{how}: element name / whitespace flag is not the function's name and the documented "
+                          "default (or the explicit _add_ws)", rec,
+                          {"impl_output": repr((t.name, t.add_ws)), "expected": repr((name, ws))})
+            ok = False
+        p = call(lambda: children_problem(list(t.children), exp_kids))
+        if p != ("ok", None):
+            ctx.violation(f"{how}: the children are not the depth-first flattening of the child arguments (lists, tuples, "
+                          "TagLists spliced at any depth, None dropped, numbers as text, everything else kept as is)",
+                          rec, {"impl_output": p[1], "expected": "see case.python"})
+            ok = False
+        p = call(lambda: attrs_problem(attrs_view(t), exp_attrs))
+        if p != ("ok", None):
+            ctx.violation(f"{how}: the attributes are not the normalised values of the attribute dicts and keyword "
+                          "attributes merged per name in argument order (plain members of a group holding an HTML() "
+                          "value escaped as attribute text)", rec, {"impl_output": p[1], "expected": "see case.python"})
+            ok = False
+        return ok
+
+
+def observations(x, light: bool):
+    """(route, thunk): every public way of looking at an element, with non-default arguments"""
+    def dep_names(ds):
+        return [(d.name, str(d.version)) for d in ds]
+
+    def json_mode():
+        old = htmltools.html_dependency_render_mode
+        try:
+            htmltools.html_dependency_render_mode = "json"
+            return str(x), TagList("before", x).get_html_string()
+        finally:
+            htmltools.html_dependency_render_mode = old
+
+    obs = [("str()", lambda: str(x)),
+           ("get_html_string(indent=2, eol='\\r\\n')", lambda: x.get_html_string(indent=2, eol="\r\n")),
+           ("render()", lambda: (lambda r: (r["html"], dep_names(r["dependencies"])))(x.render()))]
+    if light:
+        return obs
+    obs += [("repr()", lambda: repr(x)),
+            ("_repr_html_()", lambda: x._repr_html_()),
+            ("get_html_string(1, '')", lambda: x.get_html_string(1, "")),
+            ("tagify().get_html_string()", lambda: x.tagify().get_html_string()),
+            ("get_dependencies(dedup=False)", lambda: dep_names(x.get_dependencies(dedup=False))),
+            ("TagList(x).get_html_string(indent=1, eol='\\n', add_ws=False)",
+             lambda: TagList("t", x, x).get_html_string(indent=1, eol="\n", add_ws=False)),
+            ("HTMLDocument(x, lang='en', class_='k').render(lib_prefix=None, include_version=False)",
+             lambda: HTMLDocument(x, lang="en", class_="k").render(lib_prefix=None, include_version=False)["html"]),
+            ("HTMLDocument(x).render(lib_prefix='a/b')", lambda: HTMLDocument(x).render(lib_prefix="a/b")["html"]),
+            ("HTMLTextDocument(markup + pattern, deps, deps_replace_pattern='<!-- (deps$) [^] -->').render(lib_prefix=None)",
+             lambda: htmltools.HTMLTextDocument("<html><head><!-- (deps$) [^] --></head><body>" + x.get_html_string() + "</body></html>",
+                                                deps=x.get_dependencies(), deps_replace_pattern="<!-- (deps$) [^] -->"
+                                                ).render(lib_prefix=None)["html"]),
+            ("str() with html_dependency_render_mode = 'json'", json_mode),
+            ("str(copy.copy(x))", lambda: str(copy.copy(x))),
+            ("copy.copy(x) == x", lambda: copy.copy(x) == x),
+            ("x == x", lambda: x == x)]
+    return obs
+
+
+def saved(x, where: str) -> str:
+    d = tempfile.mkdtemp(prefix="c19_", dir=where)
+    try:
+        p = x.save_html(os.path.join(d, "page.html"), libdir=None, include_version=False)
+        with open(p, encoding="utf-8", newline="") as f:
+            return f.read()
+    finally:
+        shutil.rmtree(d, ignore_errors=True)
+
+
+# =================================================================================================
+# generators
+# =================================================================================================
+ATTR_KEYS = ["class", "class_", "id", "style", "title", "data_x", "data-x", "aria_label", "for_", "_add_ws",
+             "children", "name", "x__y_", "_", "href"]
+SPECIALS = ['say "hi"', "it's", "a\nb", "c\rd", "a&b<c>d", '"', "x' on='y", ""]
+SIZES = [7, 8, 9, 15, 16, 17, 31, 32, 33, 63, 64, 65, 127, 128, 129, 255, 256, 257, 300]
+DEPTHS = [7, 8, 9, 15, 16, 17, 31, 32, 33, 63, 64, 65, 70, 100, 129, 257, 300]
+CHAIN_DEPTHS = [7, 8, 9, 15, 16, 17, 31, 32, 33, 63, 64, 65, 70]
+LENGTHS = [300, 5000, 65537, 70001]
+TOLERATE_RECURSION_ABOVE = 70    # a Python-level resource limit on very deep nesting is not a silent loss
+
+
+def rand_vdesc(rng, long_ok=True):
+    r = rng.random()
+    if r < 0.22:
+        return ["s", trees.rand_text(rng, 6)]
+    if r < 0.37:
+        return ["s", rng.choice(SPECIALS)]
+    if r < 0.45:
+        return ["S", trees.rand_text(rng, 5)]
+    if r < 0.65:
+        return ["h", trees.rand_text(rng, 6)]
+    if r < 0.70:
+        return ["hs", trees.rand_text(rng, 4)]
+    if r < 0.75:
+        return ["t"]
+    if r < 0.79:
+        return ["f"]
+    if r < 0.83:
+        return ["z"]
+    if r < 0.91:
+        return ["i", rng.choice([0, 1, -3, 10, 2 ** 70])]
+    if r < 0.97 or not long_ok:
+        return ["fl", rng.choice(["0.0", "-0.0", "2.5", "1e+20", "inf", "nan", "0.1"])]
+    return [rng.choice(["ls", "lh"]), rng.choice([300, 700, 5000]), rng.choice(["ab ", "<i>", "&"]), rng.choice(SPECIALS)]
+
+
+def rand_pairs(rng, n, kw=False):
+    # as a KEYWORD, _add_ws is the whitespace option of Tag / consolidate_attrs / the tag function, not an attribute
+    pool = [k for k in ATTR_KEYS if k != "_add_ws"] if kw else ATTR_KEYS
+    keys = rng.sample(pool, min(n, len(pool)))
+    return [[k, rand_vdesc(rng)] for k in keys]
+
+
+def rand_ddesc(rng):
+    r = rng.random()
+    n = rng.choice([0, 1, 1, 2, 2, 3])
+    if r < 0.4:
+        return ["d", rand_pairs(rng, n)]
+    if r < 0.5:
+        return ["od", rand_pairs(rng, n)]
+    if r < 0.6:
+        return ["dsub", rand_pairs(rng, n)]
+    return ["D", rand_pairs(rng, n), rand_pairs(rng, rng.choice([0, 0, 1]), kw=True)]
+
+
+def rand_leaf(rng):
+    r = rng.random()
+    if r < 0.25:
+        return ["s", trees.rand_text(rng, 6)]
+    if r < 0.30:
+        return ["S", trees.rand_text(rng, 4)]
+    if r < 0.42:
+        return ["h", trees.rand_text(rng, 6)]
+    if r < 0.45:
+        return ["hs", trees.rand_text(rng, 4)]
+    if r < 0.53:
+        return ["i", rng.choice([0, 1, -3, 10])]
+    if r < 0.58:
+        return ["fl", rng.choice(["0.0", "-0.0", "2.5", "1e+20", "inf"])]
+    if r < 0.68:
+        return ["z"]
+    if r < 0.82:
+        return ["g", rng.choice(["b", "div", "my-el", "br", "script"]), rng.random() < 0.5,
+                [rand_leaf(rng) for _ in range(rng.choice([0, 1, 2]))] + ([["d", rand_pairs(rng, 1)]] if rng.random() < 0.3 else []),
+                []]
+    if r < 0.86:
+        return ["r", trees.rand_text(rng, 5)]
+    if r < 0.90:
+        return ["c", rng.choice([0, 1, 2])]
+    if r < 0.93:
+        return ["cr", trees.rand_text(rng, 4)]
+    if r < 0.95:
+        return ["m"]
+    if r < 0.97:
+        return ["dep", rng.choice(["a", "b"]), rng.choice(["1.0", "1.10"])]
+    if r < 0.985:
+        return ["jsx", "Foo"]
+    return [rng.choice(["ls", "lh"]), rng.choice([300, 5000]), "ab<", "&tail>"]
+
+
+def rand_cdesc(rng, depth=3):
+    r = rng.random()
+    if depth <= 0 or r < 0.5:
+        return rand_leaf(rng)
+    if r < 0.85:
+        kind = rng.choice(["L", "L", "T", "TL", "KC"])
+        return [kind, [rand_cdesc(rng, depth - 1) for _ in range(rng.choice([0, 1, 2, 2, 3]))]]
+    if r < 0.95:
+        return ["nest", rng.choice(["list", "tuple", "mixed", "sib", "tl"]), rng.choice([1, 2, 3, 5, 9, 17, 33, 40, 65]),
+                rand_cdesc(rng, depth - 1)]
+    return ["rep", rng.choice([0, 1, 5, 9, 17, 33, 65]), ["s", "item{i}"], rng.choice(["L", "T", "TL"])]
+
+
+def rand_case(rng, fn):
+    args = []
+    for _ in range(rng.choice([0, 1, 2, 3, 4, 5])):
+        r = rng.random()
+        if r < 0.55:
+            args.append(rand_cdesc(rng))
+        elif r < 0.93:
+            args.append(rand_ddesc(rng))
+        elif r < 0.97:
+            args.append(["*ca", [rand_cdesc(rng, 1), rand_ddesc(rng), rand_ddesc(rng)], rand_pairs(rng, 1, kw=True)])
+        else:
+            args.append(["*rep", rng.choice([8, 17, 33]), rng.choice([["s", "c{i}"], ["d", [["class", ["s", "k{i}"]]]]])])
+    kw = rand_pairs(rng, rng.choice([0, 0, 1, 2]), kw=True)
+    return {"fn": list(fn), "args": args, "kw": kw, "ws": rng.choice([None, None, True, False])}
+
+
+def rand_invalid_case(rng, fn):
+    r = rng.random()
+    # (a dict is an unsupported child only INSIDE a container; at top level it is an attribute dict)
+    bad = ["bad", rng.choice(["object", "bytes", "set", "gen", "complex", "type"] + (["dict-in-container"] * 2 if r >= 0.4 else []))]
+    if r < 0.4:
+        item = bad
+    elif r < 0.8:
+        item = [rng.choice(["L", "T"]), [["s", "ok"], bad]]
+    else:
+        item = ["nest", "list", rng.choice([1, 5, 33]), bad]
+    args = [rand_leaf(rng), item, rand_ddesc(rng)]
+    rng.shuffle(args)
+    return {"fn": list(fn), "args": args, "kw": [], "ws": None}
+
+
+def sweep_cases(n: int):
+    """for a size n: one call per countable thing of an argument list, the interesting member LAST"""
+    q = ["s", 'q{i}"']
+    out = [
+        ("positional children", {"args": [["*rep", n - 1, ["s", "c{i}"]], ["g", "b", False, [["s", "last"]], []]]}),
+        ("items of one list", {"args": [["rep", n, ["s", "item{i}"], "L"]]}),
+        ("items of one tuple", {"args": [["s", "first"], ["rep", n, ["i", 0], "T"], ["s", "last"]]}),
+        ("items of one TagList", {"args": [["rep", n, ["h", "<i>{i}</i>"], "TL"]]}),
+        ("items of another tag's .children", {"args": [["rep", n, ["s", "k{i}"], "KC"], ["z"]]}),
+        ("lists in a list", {"args": [["rep", n, ["L", [["s", "in{i}"], ["z"]]], "L"]]}),
+        ("positional dicts, distinct names", {"args": [["*rep", n, ["d", [["data_k{i}", ["s", "v{i}"]]]]], ["s", "kid"]]}),
+        ("positional dicts, one name, HTML last",
+         {"args": [["*rep", n - 1, ["d", [["class", q]]]], ["D", [["class", ["h", "<last>"]]], []]]}),
+        ("positional dicts, one name, HTML first",
+         {"args": [["d", [["title", ["h", "<first>"]]]], ["*rep", n - 1, ["od", [["title", q]]]]]}),
+        ("positional dicts, one name, plain only", {"args": [["*rep", n, ["D", [["class_", q]], []]]]}),
+        ("names in one dict", {"args": [["drep", n, "data_k{i}", ["s", "v{i}"], "d"]], "kw": [["data_k0", ["h", "<kw>"]]]}),
+        ("names in another tag's .attrs", {"args": [["d", [["data-k%d" % (n - 1), ["s", 'first"']]]],
+                                                   ["drep", n, "data_k{i}", ["h", "<v{i}>"], "D"]]}),
+        ("keyword attributes", {"args": [["d", [["data-k%d" % (n - 1), ["h", "<d>"]]]]], "kwrep": [n, "data_k{i}", q]}),
+        ("attribute dict after many children", {"args": [["*rep", n, ["s", "c{i}"]], ["d", [["id", ["s", "late"]]]], ["s", "after"]]}),
+        ("children after many attribute dicts", {"args": [["*rep", n, ["d", [["class", ["s", "c{i}"]]]]], ["L", [["s", "kid"]]]]}),
+        ("class tokens in one value", {"args": [["d", [["class", ["s", " ".join("t%d" % i for i in range(n))]]]]],
+                                       "kw": [["class_", ["h", "<last>"]]]}),
+    ]
+    return [(what + " = %d" % n, c) for what, c in out]
+
+
+def depth_cases(n: int):
+    leaf = ["g", "span", False, [["s", "leaf"]], [["id", ["s", "x"]]]]
+    out = [(k + " nesting depth = %d" % n, {"args": [["s", "first"], ["nest", k, n, leaf], ["s", "last"]]})
+           for k in ("list", "tuple", "mixed", "sib", "tl")]
+    out.append(("list nesting depth = %d around a list of items" % n,
+                {"args": [["nest", "list", n, ["L", [["s", "a"], ["z"], ["i", 0], ["TL", [["s", "b"]]]]]]]}))
+    return out
+
+
+def chain_cases(n: int):
+    return [("tags nested %d deep (each made by a tag function)" % n, {"args": [["chain", n, ["s", "bottom"]], ["s", "after"]]})]
+
+
+def length_cases(n: int):
+    tail = '<&>"\'\n'
+    return [
+        ("plain child of %d characters" % n, {"args": [["ls", n, "ab ", tail], ["s", "after"]]}),
+        ("HTML child of %d characters" % n, {"args": [["lh", n, "<i>x</i>", "<b>tail</b>"]]}),
+        ("attribute value of %d characters" % n, {"args": [["d", [["title", ["ls", n, "ab ", tail]]]]]}),
+        ("attribute value of %d characters merged with HTML" % n,
+         {"args": [["d", [["title", ["ls", n, "a&b ", tail]]]], ["D", [["title", ["h", "<i>"]]], []]]}),
+        ("HTML attribute value of %d characters merged with plain" % n,
+         {"args": [["D", [["title", ["lh", n, "&amp;", "<end>"]]], []]], "kw": [["title", ["s", tail]]]}),
+        ("attribute name of %d characters" % n, {"args": [["d", [["data_" + "n_" * (n // 2), ["s", "v"]]]]]}),
+    ]
+
+
+def matrix_cases():
+    """two sources of one attribute x two kinds of value; container kind x two kinds of child"""
+    vals = [["s", 'p"q\'r\n\r&<>'], ["S", "it's"], ["h", "<i>&amp;"], ["hs", "<b>"], ["i", 0], ["fl", "2.5"],
+            ["t"], ["f"], ["z"], ["s", ""]]
+
+    def source(kind, key, v):
+        if kind == "D2":
+            return ["D", [], [[key, v]]]
+        if kind == "D":
+            return ["D", [[key, v]], []]
+        if kind == "ca":
+            return ["*ca", [["d", [[key, v]]], ["s", "ca-kid"]], []]
+        return [kind, [[key, v]]]
+    out = []
+    for s1 in ("d", "od", "dsub", "D", "D2", "ca", "kw"):
+        for s2 in ("d", "od", "dsub", "D", "D2", "ca", "kw"):
+            if s1 == "kw" and s2 != "kw":
+                continue
+            for v1 in vals:
+                for v2 in vals:
+                    c = {"args": [], "kw": []}
+                    if s1 == "kw":
+                        c["kw"] = [["title_", v1], ["title", v2]]
+                    else:
+                        c["args"].append(source(s1, "title", v1))
+                        if s2 == "kw":
+                            c["kw"] = [["title", v2]]
+                        else:
+                            c["args"].append(source(s2, "title_", v2))
+                    out.append(("attribute sources %s + %s" % (s1, s2), c))
+    leaves = [["s", "a<b"], ["S", "sub"], ["s", ""], ["h", "<i>"], ["hs", "<b>"], ["i", 0], ["fl", "-0.0"], ["z"],
+              ["g", "b", False, [["s", "t"]], []], ["r", "<r>"], ["c", 2], ["cr", "<cr>"], ["m"], ["dep", "a", "1.0"], ["jsx", "Foo"]]
+    for kind in ("L", "T", "TL", "KC", "LT", "TLL"):
+        for a in leaves:
+            for b in leaves:
+                if kind == "LT":
+                    item = ["L", [a, ["T", [b]]]]
+                elif kind == "TLL":
+                    item = ["T", [["L", [["TL", [a, b]]]]]]
+                else:
+                    item = [kind, [a, b]]
+                out.append(("container %s" % kind, {"args": [item]}))
+    return out
+
+
+# =================================================================================================
 def run(ctx: Ctx) -> None:
     rng = ctx.rng
     ctx.rule = ("exhaustive over every function object defined in htmltools.tags and htmltools.svg and "
                 "the 17 top-level shortcuts; per function: name, default flag, explicit flag, rejected "
-                "non-bool flags, and equality with Tag(name, ...) on random argument lists. "
+                "non-bool flags, equality with Tag(name, ...) on random argument lists, AND the element's "
+                "children / attributes judged by a transcription of the constructor's documented behaviour "
+                "(flattening at any depth, normalised and merged attributes) on described calls: random ones, "
+                "a matrix of attribute sources x value kinds and container kinds x child kinds, sizes / depths / "
+                "lengths around 8..300 / 70000 with the interesting member last, every observation route with "
+                "non-default arguments, argument snapshots, aliasing and second-object probes. "
                 "All cases are non-trivial; distinct = (module, function, probe).")
     ctx.assumptions = ["the translator prints the literals it finds (cross-checked here against the live modules)"]
     ctx.proof()
@@ -153,7 +1034,343 @@ def run(ctx: Ctx) -> None:
         ctx.count(("toplevel", n), True, "toplevel")
         if getattr(htmltools, n, None) is not mods["tags"].get(n):
             ctx.violation(f"htmltools.{n} is not htmltools.tags.{n}", n, {})
+    # the star-import entry points give the same function objects
+    for modname, names in (("htmltools", TOPLEVEL), ("htmltools.tags", TOPLEVEL)):
+        ns: dict = {}
+        r = safe_call(lambda: exec(f"from {modname} import *", ns))
+        ctx.count(("star-import", modname), True, "toplevel")
+        for n in names:
+            if r[0] != "ok" or ns.get(n) is not mods["tags"].get(n):
+                ctx.violation(f"`from {modname} import *` does not give htmltools.tags.{n}", [modname, n], {"impl_output": repr(r)[:200]})
+                break
+
+    described_calls(ctx, mods, inline)
     ctx.extra["exhaustive"] = True
+
+
+# =================================================================================================
+def described_calls(ctx: Ctx, mods, inline) -> None:
+    rng = ctx.rng
+    judge = Judge(ctx)
+    allf = [(mn, n) for mn in ("tags", "svg") for n in mods[mn]]
+    if not allf:
+        return
+    tmp_root = tempfile.mkdtemp(prefix="c19_run_")
+    # the functions that get every sweep: block, inline, void, raw-text, document parts, svg (camel case), shortcuts
+    sample = [fn for fn in [("tags", "div"), ("tags", "span"), ("tags", "br"), ("tags", "script"), ("tags", "style"),
+                            ("tags", "pre"), ("tags", "html"), ("tags", "head"), ("tags", "select"), ("tags", "label"),
+                            ("svg", "svg"), ("svg", "textPath"), ("svg", "g")] if fn[1] in mods[fn[0]]]
+    sample += [allf[rng.randrange(len(allf))] for _ in range(2)]
+
+    def one(kind: str, what: str, case: dict, fn, routes: str = "none") -> None:
+        """build the described call, run wrapper and constructor, judge both with the specification"""
+        mn, n = fn
+        f = mods[mn][n]
+        case = dict(case)
+        case["fn"] = [mn, n]
+        case.setdefault("kw", [])
+        case.setdefault("ws", None)
+        want_ws = n not in inline
+        flag = want_ws if case["ws"] is None else case["ws"]
+        rec = {"what": what, "python": case_src(case), "call": case}
+        ctx.count((mn, n, kind, what, rec["python"][:300]), True, kind)
+        b = Builder(mods)
+        r = call(lambda: b.call(case))
+        if r[0] != "ok":
+            # building the ARGUMENTS uses the library too (donor tags, TagLists, consolidate_attrs)
+            ctx.violation("building the arguments of a described call failed (donor tag / TagList / consolidate_attrs "
+                          "raised on valid input)", rec, {"impl_output": repr(r)})
+            return
+        args, kw, exp_kids, exp_attrs = r[1]
+        before = call(lambda: (snap(args), snap(kw)))
+        if case["ws"] is None:
+            got = call(lambda: f(*args, **kw))
+        else:
+            got = call(lambda: f(*args, _add_ws=case["ws"], **kw))
+        ref = call(lambda: Tag(n, *args, _add_ws=flag, **kw))
+        after = call(lambda: (snap(args), snap(kw)))
+        if before != after:
+            ctx.violation("a tag function (or the Tag constructor) altered the caller's argument objects", rec,
+                          {"impl_output": short(after, 400), "expected": short(before, 400)})
+        how = "f(*args, **kw)"
+        if b.invalid:
+            for lab, x in ((how, got), ("Tag(name, *args, **kw)", ref)):
+                if x != ("err", 3):
+                    ctx.violation(f"{lab}: a child argument of unsupported type is not rejected with TypeError", rec,
+                                  {"impl_output": short(x), "expected": "TypeError"})
+            return
+        if b.depth > TOLERATE_RECURSION_ABOVE and got == ("err", 7) and ref == ("err", 7):
+            ctx.histogram["recursion-limit"] = ctx.histogram.get("recursion-limit", 0) + 1
+            return
+        if got[0] != "ok" or ref[0] != "ok":
+            ctx.violation("a tag function (or the Tag constructor) raised on a valid described argument list", rec,
+                          {"impl_output": short((got, ref))})
+            return
+        g, w = got[1], ref[1]
+        ok = judge.element(how, g, n, flag, exp_kids, exp_attrs, rec)
+        ok = judge.element("Tag(name, *args, _add_ws=default, **kw)", w, n, flag, exp_kids, exp_attrs, rec) and ok
+        if not ok:
+            return
+        for top, depth, bottom in b.chains:
+            # every level of a chain of tag functions holds exactly the element made one level further in
+            def walk():
+                x = top
+                for j in reversed(range(depth)):
+                    if not isinstance(x, Tag) or x.name != CHAIN_FNS[j % len(CHAIN_FNS)][1] or len(x.children) != 1:
+                        return "level %d from the bottom: %s" % (j, node_view(x))
+                    x = x.children[0]
+                return None if x == bottom else "bottom: " + node_view(x)
+            wr = call(walk)
+            if wr != ("ok", None):
+                ctx.violation("tag functions nested in each other: some level does not hold exactly the element made one level "
+                              "further in", rec, {"impl_output": short(wr)})
+        eq = call(lambda: (g == w, w == g))
+        if eq != ("ok", (True, True)):
+            ctx.violation("f(*args, **kw) == Tag(name, *args, _add_ws=default, **kw) is not True", rec, {"impl_output": short(eq)})
+        # results are not aliased to the arguments or to each other
+        for a in args:
+            if a is g.attrs or a is g.children or a is w.attrs or a is w.children:
+                ctx.violation("the element's .attrs / .children IS one of the caller's argument objects", rec, {})
+        if g.attrs is w.attrs or g.children is w.children:
+            ctx.violation("two elements share their .attrs / .children object", rec, {})
+        if routes == "none":
+            return
+        for (route, fg), (_, fw) in zip(observations(g, routes == "light"), observations(w, routes == "light")):
+            rg, rw = call(fg), call(fw)
+            if rg != rw:
+                ctx.violation(f"the element made by the tag function and the one made by Tag(name, ...) differ under {route}",
+                              rec, {"impl_output": short(rg, 400), "expected": short(rw, 400)})
+        if routes == "light":
+            return
+        # a shallow copy holds the same children and equal attributes; a deep copy equal text
+        cp = call(lambda: copy.copy(g))
+        if cp[0] != "ok" or not isinstance(cp[1], Tag) or call(lambda: (
+                cp[1] == g, str(cp[1]) == str(g), attrs_view(cp[1]) == exp_attrs, len(cp[1].children), cp[1].name,
+                cp[1].add_ws)) != ("ok", (True, True, True, len(exp_kids), n, flag)):
+            ctx.violation("copy.copy(f(*args, **kw)) is not an equal element", rec, {"impl_output": short(cp)})
+        if not b.custom:
+            dc = call(lambda: copy.deepcopy(g))
+            if dc[0] != "ok" or not isinstance(dc[1], Tag) or call(lambda: (dc[1] == g, str(dc[1]) == str(g), attrs_view(dc[1]) == exp_attrs,
+                                                                               dc[1].name, dc[1].add_ws)) != ("ok", (True, True, True, n, flag)):
+                ctx.violation("copy.deepcopy(f(*args, **kw)) is not an equal element", rec, {"impl_output": short(dc)})
+        # consolidate_attrs(*args, **kw) fed back: "rebuilding a tag from its result equals building it directly"
+        ca = call(lambda: consolidate_attrs(*args, **kw))
+        if ca[0] != "ok":
+            ctx.violation("consolidate_attrs(*args, **kw) raised on a valid argument list", rec, {"impl_output": short(ca)})
+        else:
+            rb = call(lambda: f(ca[1][0], *ca[1][1], _add_ws=flag))
+            if rb[0] != "ok":
+                ctx.violation("f(attrs, *children) of consolidate_attrs(*args, **kw) raised", rec, {"impl_output": short(rb)})
+            else:
+                judge.element("f(attrs, *children) with attrs, children = consolidate_attrs(*args, **kw)", rb[1], n, flag,
+                              exp_kids, exp_attrs, rec)
+        # the element's own .attrs / .children passed on to another tag function
+        fwd = call(lambda: f(g.attrs, g.children, _add_ws=flag))
+        if fwd[0] != "ok":
+            ctx.violation("f(x.attrs, x.children) raised for an element x made by a tag function", rec, {"impl_output": short(fwd)})
+        else:
+            judge.element("f(x.attrs, x.children) with x = f(*args, **kw)", fwd[1], n, flag, exp_kids, exp_attrs, rec)
+            if fwd[1].attrs is g.attrs or fwd[1].children is g.children:
+                ctx.violation("f(x.attrs, x.children) shares x's .attrs / .children object", rec, {})
+        # the with-block route on the element a wrapper returned (and on the constructor's): what is
+        # displayed inside the block is appended after the children given at construction
+        inner = Tag("b", "in")
+        from htmltools._jsx import jsx_tag_create
+        comp = jsx_tag_create("Shown")(Tag("i", "jsx-kid"), p=1)
+
+        def sink(value):      # (leaving the block displays the element itself; one sink for both elements:
+            return None       #  an element remembers the hook that was active when its block was entered)
+        for lab, x in (("f(*args, **kw)", g), ("Tag(name, ...)", w)):
+            hook = sys.displayhook
+            sys.displayhook = sink
+
+            def block():
+                with x:
+                    sys.displayhook("w1")
+                    sys.displayhook(None)
+                    sys.displayhook(inner)
+                    sys.displayhook(...)
+                    sys.displayhook(comp)
+            rwb = call(block)
+            sys.displayhook = hook
+            if rwb[0] != "ok":
+                ctx.violation(f"with {lab}: displaying values inside the block raised", rec, {"impl_output": short(rwb)})
+            else:
+                judge.element(f"`with {lab}:` displaying 'w1', None, a tag, Ellipsis and a JSX component", x, n, flag,
+                              exp_kids + [("str", "w1"), ("is", inner), ("is", comp)], exp_attrs, rec)
+        eq = call(lambda: (g == w, str(g) == str(w), copy.copy(g) == w))
+        if eq != ("ok", (True, True, True)):
+            ctx.violation("after the same with-block, the element made by the tag function and the one made by Tag(name, ...) "
+                          "no longer compare / render / copy equal", rec, {"impl_output": short(eq)})
+        if routes == "full+file":
+            sg, sw = call(lambda: saved(g, tmp_root)), call(lambda: saved(w, tmp_root))
+            if sg != sw or sg[0] != "ok":
+                ctx.violation("save_html(libdir=None, include_version=False) of the element made by the tag function differs "
+                              "from that of the one made by Tag(name, ...) (or raised)", rec,
+                              {"impl_output": short(sg, 400), "expected": short(sw, 400)})
+
+    try:
+        # ---- (b) matrix: attribute sources x value kinds, container kinds x child kinds (spread over all functions)
+        mat = matrix_cases()
+        off = rng.randrange(len(allf))
+        for i in range(len(mat)):
+            what, c = mat[i]
+            one("matrix", what, c, allf[(i + off) % len(allf)])
+        # ---- (c) sizes, depths, lengths: every (countable, size) on the sample functions in turn and spread
+        #          over all functions; the big strings on a handful
+        sized = [x for n in SIZES for x in sweep_cases(n)] + [x for n in DEPTHS for x in depth_cases(n)] \
+            + [x for n in CHAIN_DEPTHS for x in chain_cases(n)]
+        off = rng.randrange(len(allf))
+        for i, (what, c) in enumerate(sized):
+            one("size", what, c, allf[(i * 7 + off) % len(allf)], routes="light" if i % 5 == 0 else "none")
+            one("size", what, dict(c, ws=rng.choice([True, False])), sample[i % len(sample)])
+        per_fn = ctx.budget(4, 40)
+        for i, fn in enumerate(allf):
+            for j in range(per_fn):
+                what, c = sized[(i * per_fn + j + off) * 37 % len(sized)]
+                one("size", what, c, fn)
+        for k, n in enumerate(LENGTHS):
+            for j, (what, c) in enumerate(length_cases(n)):
+                one("length", what, c, sample[(k * 6 + j) % len(sample)], routes="light" if n <= 5000 or j < 2 else "none")
+                one("length", what, c, allf[rng.randrange(len(allf))])
+        # ---- (d) every observation route incl. files on the sample functions, features together
+        combos = [
+            ("one object in two places of one call", {"args": [["same", "k", ["g", "b", False, [["s", "t"]], []]], ["L", [["same", "k", ["g", "b", False, [["s", "t"]], []]]]]]}),
+            ("one attribute dict given twice", {"args": [["same", "d", ["d", [["class", ["s", 'a"b']], ["id", ["h", "<i>"]]]]],
+                                                          ["same", "d", ["d", [["class", ["s", 'a"b']], ["id", ["h", "<i>"]]]]]]}),
+            ("another tag's .attrs given twice, then keywords", {"args": [["same", "d", ["D", [["class", ["s", "a'b"]]], [["title", ["h", "<t>"]]]]],
+                                                                         ["s", "kid"], ["same", "d", ["D", [["class", ["s", "a'b"]]], [["title", ["h", "<t>"]]]]]],
+                                                                "kw": [["title", ["s", 'q"']], ["class_", ["h", "&amp;"]]]}),
+            ("dependency, metadata, tagifiable + self-rendering object, JSX component as children",
+             {"args": [["dep", "a", "1.0"], ["L", [["m"], ["cr", "<x>"], ["T", [["jsx", "Foo"], ["c", 2]]]]], ["r", "<r>"], ["dep", "a", "1.10"]],
+              "kw": [["class_", ["s", "k"]]]}),
+            ("consolidate_attrs of consolidate_attrs", {"args": [["*ca", [["*ca", [["d", [["class", ["h", "<i>"]]]], ["s", "kid"], ["D", [["class", ["s", 'q"']]], []]], [["class_", ["s", "w'"]]]],
+                                                                          ["d", [["class", ["s", "z\n"]]]]], []]]}),
+            ("head / body / html inside", {"args": [["g", "head", True, [["g", "title", True, [["s", "t"]], []]], []], ["g", "body", True, [["s", "b"]], []]]}),
+        ]
+        for what, c in combos:
+            for fn in sample:
+                one("combo", what, c, fn, routes="full+file" if fn in sample[:4] else "full")
+        for fn in sample:
+            one("combo", "random described call, every route incl. files", rand_case(rng, fn), fn, routes="full+file")
+        # ---- (a) random described calls, every function; one of them through every observation route
+        #          (after the systematic ones: the first failing input recorded is then a small one)
+        for i, fn in enumerate(allf):
+            for j in range(ctx.budget(5, 40)):
+                one("described", "random described call", rand_case(rng, fn), fn,
+                    routes="full" if j == 0 else ("light" if j == 1 else "none"))
+            one("invalid", "unsupported child type", rand_invalid_case(rng, fn), fn)
+        state_probes(ctx, mods, inline, judge, allf, sample)
+    finally:
+        shutil.rmtree(tmp_root, ignore_errors=True)
+
+
+# =================================================================================================
+def state_probes(ctx: Ctx, mods, inline, judge: Judge, allf, sample) -> None:
+    """STATE SHARED BETWEEN OBJECTS OR CALLS: the second element of every function is not influenced by
+    the first (nor by what was done to the first); helper-made values go back into a tag function;
+    a long history of calls."""
+    rng = ctx.rng
+    for mn, n in allf:
+        f = mods[mn][n]
+        ws = n not in inline
+        rec = {"function": f"{mn}.{n}", "python": f"t1 = {mn}.{n}('one', ['two', None, (3,)], {{'class': 'c1'}}, id='i1'); t2 = {mn}.{n}(); "
+               "t2.append('later'); t2.attrs['k'] = 'v'; t2.add_class('z'); t2.children.insert(0, 'x'); "
+               f"t3 = {mn}.{n}(); t4 = {mn}.{n}('y', _add_ws={not ws}); t5 = {mn}.{n}('z', data_q=HTML('<q>'))"}
+        ctx.count((mn, n, "second-object"), True, "state")
+        shared_list = ["two", None, (3,)]
+        shared_dict = {"class": "c1"}
+
+        def prog():
+            t1 = f("one", shared_list, shared_dict, id="i1")
+            t2 = f()
+            first = (list(t2.children), attrs_view(t2), t2.name, t2.add_ws)
+            t2.append("later")
+            t2.attrs["k"] = "v"
+            t2.add_class("z")
+            t2.children.insert(0, "x")
+            t3 = f()
+            t4 = f("y", _add_ws=not ws)
+            t5 = f("z", data_q=HTML("<q>"))
+            t6 = f("one", shared_list, shared_dict, id="i1")
+            return t1, first, t3, t4, t5, t6, t2
+        r = call(prog)
+        if r[0] != "ok":
+            ctx.violation("a sequence of calls of one tag function (with mutations of the results in between) raised", rec,
+                          {"impl_output": short(r)})
+            continue
+        t1, first, t3, t4, t5, t6, t2 = r[1]
+        if first != ([], [], n, ws):
+            ctx.violation("f() after f(children, attributes) is not an empty element with the documented default", rec,
+                          {"impl_output": short(first), "expected": repr(([], [], n, ws))})
+        k1 = [("str", "one"), ("str", "two"), ("str", "3")]
+        a1 = [["class", 0, "c1"], ["id", 0, "i1"]]
+        judge.element("t1 (after later calls and after mutating t2)", t1, n, ws, k1, a1, rec)
+        judge.element("t3 = f() after mutating an earlier f()", t3, n, ws, [], [], rec)
+        judge.element("t4 = f('y', _add_ws=not default)", t4, n, not ws, [("str", "y")], [], rec)
+        judge.element("t5 = f('z', data_q=HTML('<q>')) after f('y', _add_ws=not default)", t5, n, ws, [("str", "z")], [["data-q", 1, "<q>"]], rec)
+        judge.element("t6 = the first call again", t6, n, ws, k1, a1, rec)
+        if shared_list != ["two", None, (3,)] or shared_dict != {"class": "c1"}:
+            ctx.violation("a tag function altered a list / dict argument that was used for two calls", rec,
+                          {"impl_output": repr((shared_list, shared_dict))})
+        objs = [t1, t2, t3, t4, t5, t6]
+        if len({id(x) for x in objs}) != 6 or len({id(x.attrs) for x in objs}) != 6 or len({id(x.children) for x in objs}) != 6:
+            ctx.violation("two calls of a tag function returned the same element / .attrs / .children object", rec, {})
+        # mutating the caller's objects afterwards does not reach into the elements
+        shared_list.append("late")
+        shared_dict["class"] = "changed"
+        judge.element("t1 after the caller changed the list / dict it had passed", t1, n, ws, k1, a1, rec)
+
+    # helper-made values back into a tag function: add_class / add_style(prepend=True) with HTML(), then
+    # .attrs of that element as an attribute dict of another call, after an earlier dict of the same names
+    for mn, n in sample:
+        f = mods[mn][n]
+        ws = n not in inline
+        for first_html in (False, True):
+            first_src = "HTML('a&amp;')" if first_html else "'a'"
+            rec = {"function": f"{mn}.{n}", "python": f"x = {mn}.{n}(class_={first_src}, style='s:1'); "
+                   "x.add_class('b', prepend=True); x.add_style(HTML('t:2;'), prepend=True); "
+                   f"y = {mn}.{n}({{'class': 'q\"r', 'style': \"u:'v'\"}}, x.attrs, 'kid', x.children)"}
+            ctx.count((mn, n, "helpers", first_html), True, "state")
+
+            def prog2():
+                x = f(class_=HTML("a&amp;") if first_html else "a", style="s:1")
+                x.add_class("b", prepend=True)
+                x.add_style(HTML("t:2;"), prepend=True)
+                held = attrs_view(x)
+                y = f({"class": 'q"r', "style": "u:'v'"}, x.attrs, "kid", x.children)
+                return held, y, attrs_view(x)
+            r = call(prog2)
+            if r[0] != "ok":
+                ctx.violation("feeding an element's .attrs (after add_class / add_style) into a tag function raised", rec, {"impl_output": short(r)})
+                continue
+            held, y, held_after = r[1]
+            if held != held_after:
+                ctx.violation("passing x.attrs to a tag function altered x.attrs", rec, {"impl_output": short(held_after), "expected": short(held)})
+            # whatever the helpers stored (their subject is C16), the call must merge THOSE values per the spec
+            donor_pairs = [(k, ["h" if m else "s", t]) for k, m, t in held]
+            exp = spec_merge([[("class", ["s", 'q"r']), ("style", ["s", "u:'v'"])], donor_pairs])
+            judge.element("f({'class': .., 'style': ..}, x.attrs, 'kid', x.children)", y, n, ws, [("str", "kid")], exp, rec)
+
+    # a long history of calls of one function: call number k gets k-dependent arguments; all results are
+    # judged after the last call (a later call must not reach into an earlier element)
+    for mn, n in sample[:6]:
+        f = mods[mn][n]
+        ws = n not in inline
+        N = 300
+        rec = {"function": f"{mn}.{n}", "python": f"[{mn}.{n}('c%d' % k, [k, None, ('t%d' % k,)], {{'class': 'a%d\"' % k}}, class_=HTML('<%d>' % k) if k % 2 else 'p', "
+               f"_add_ws=bool(k % 3)) for k in range({N})]"}
+        ctx.count((mn, n, "history"), True, "state")
+        r = call(lambda: [f("c%d" % k, [k, None, ("t%d" % k,)], {"class": 'a%d"' % k}, class_=HTML("<%d>" % k) if k % 2 else "p",
+                            _add_ws=bool(k % 3)) for k in range(N)])
+        if r[0] != "ok":
+            ctx.violation("a history of 300 calls of one tag function raised", rec, {"impl_output": short(r)})
+            continue
+        for k, t in enumerate(r[1]):
+            exp = spec_merge([[("class", ["s", 'a%d"' % k])], [("class_", ["h", "<%d>" % k] if k % 2 else ["s", "p"])]])
+            if not judge.element(f"call number k of a history of {N} calls", t, n, bool(k % 3),
+                                 [("str", "c%d" % k), ("str", str(k)), ("str", "t%d" % k)], exp, dict(rec, k=k)):
+                break
 
 
 def replay(ctx: Ctx, path: str) -> None:
